@@ -1014,15 +1014,38 @@ func (st *wstate) preEdit(n int) {
 	if _, perr := ParseSnap(data); perr != nil {
 		return
 	}
-	// entries are separated by "---\n": put blank lines after the k-th terminator (or at the top)
-	parts := strings.SplitAfter(string(data), "\n---\n")
-	k := (n / len(files)) % (len(parts) + 1)
-	extra := strings.Repeat("\n", 1+n%3)
 	var out string
-	if k == 0 {
-		out = extra + string(data)
-	} else {
-		out = strings.Join(parts[:k], "") + extra + strings.Join(parts[k:], "")
+	kind := "blank_lines"
+	switch (n / 7) % 4 {
+	case 1:
+		// packed: the blank separator lines removed (a terminator line directly followed by
+		// the next header; inside a body a terminator line is always stored escaped)
+		kind = "packed"
+		out = strings.ReplaceAll(string(data), "\n---\n\n[", "\n---\n[")
+		out = strings.TrimPrefix(out, "\n")
+	case 2:
+		// an empty value written by hand as a header directly followed by the terminator
+		// (the library writes one blank body line; both read back as the empty string)
+		kind = "zero_line_body"
+		out = string(data)
+		for _, e := range st.d.Multi[p].Entries {
+			if e.Text.Known && e.Text.S == "" {
+				out = strings.Replace(out, "["+e.ID()+"]\n\n---\n", "["+e.ID()+"]\n---\n", 1)
+			}
+		}
+	default:
+		// entries are separated by "---\n": put blank lines after the k-th terminator (or at the top)
+		parts := strings.SplitAfter(string(data), "\n---\n")
+		k := (n / len(files)) % (len(parts) + 1)
+		extra := strings.Repeat("\n", 1+n%3)
+		if k == 0 {
+			out = extra + string(data)
+		} else {
+			out = strings.Join(parts[:k], "") + extra + strings.Join(parts[k:], "")
+		}
+	}
+	if out == string(data) {
+		return
 	}
 	if act, perr := ParseSnap([]byte(out)); perr != nil || len(act) != len(st.d.Multi[p].Entries) {
 		return // (a body that itself holds a terminator-like sequence: leave the file alone)
@@ -1031,7 +1054,7 @@ func (st *wstate) preEdit(n int) {
 		return
 	}
 	delete(st.sortedOK, p)
-	st.out.Stats.Probes["hand_edit_blank_lines"]++
+	st.out.Stats.Probes["hand_edit_"+kind]++
 }
 
 func cfgUpd(lf *model.Life, c *scen.Call) *bool {
